@@ -18,6 +18,8 @@
 (*                who = "<store configuration>#cold|warm|again", frames    *)
 (*                in arrival order, err                                    *)
 (*   syncerrs    errors SyncBlocks returned (none expected)                *)
+(*   crash       "" or how the process running the stores died (cases with *)
+(*               small chunk-size estimates run in a child process)        *)
 (* Judged with the property-level operators of Postings only.              *)
 (***************************************************************************)
 EXTENDS TraceLib, Postings
@@ -68,6 +70,7 @@ JudgeQuery(e, jq) ==
 (* bucket at its last sync                                                                       *)
 JudgeLine(e) == UNION { JudgeQuery(e, e.qs[k]) : k \in DOMAIN e.qs }
                 \cup (IF e.syncerrs = <<>> THEN {} ELSE {"block-sync-succeeds"})
+                \cup (IF e.crash = "" THEN {} ELSE {"answers-without-crashing"})    \* the statement presupposes an answer
 
 (* Model conformance (never a verdict): the algorithm-level model of one block - external-label *)
 (* matchers decided on the block (labelMatchers), the rest through the posting groups, chunks    *)
